@@ -67,7 +67,7 @@ func (p *Program) readOnlyFn(fn *ssa.Function) bool {
 		order = append(order, f)
 		n.bad, n.cap, n.why, n.callees = p.roLocal(f)
 		for _, c := range n.callees {
-			if len(c.Blocks) == 0 || !p.isFirstParty(c) {
+			if len(c.Blocks) == 0 || !(p.isFirstParty(c) || c.Synthetic != "") {
 				n.bad = true
 				if n.why == "" {
 					n.why = "calls " + c.String() + " (no body to inspect)"
@@ -210,7 +210,20 @@ func (p *Program) roLocal(fn *ssa.Function) (bad, capw bool, why string, callees
 				}
 				sc := com.StaticCallee()
 				if sc == nil {
-					note("dynamic call at " + p.instrPos(x))
+					// a function value: the functions the call graph resolves it to (a method
+					// expression handed to a helper arrives as a thunk that invokes the method)
+					targets := p.Callees(p.VTA(), x)
+					if len(targets) == 0 {
+						note("dynamic call at " + p.instrPos(x))
+						continue
+					}
+					for _, t := range targets {
+						if len(t.Blocks) == 0 {
+							note("dynamic call at " + p.instrPos(x) + " may reach " + t.String() + " (no body)")
+							continue
+						}
+						callees = append(callees, t)
+					}
 					continue
 				}
 				if pureStdFn(sc) {
